@@ -70,9 +70,14 @@ fn sites(lines: &[Line]) -> Vec<Edit> {
         let first_sig = sig.first().copied();
         // comments
         if !has_comment {
-            v.push(Edit { group: 0, kind: "trailing-semicolon-comment", line: li, tok: n, op: Op::AppendLine(" ; note".into()) });
-            v.push(Edit { group: 0, kind: "trailing-slash-comment", line: li, tok: n, op: Op::AppendLine(" // note".into()) });
-            v.push(Edit { group: 0, kind: "trailing-block-comment", line: li, tok: n, op: Op::AppendLine(" /* note */".into()) });
+            // comment texts that look like other syntax: a comment is a comment whatever it says
+            let texts = ["note", "see inc/*.inc for the tables", "a ; b // c", "ldi r16, 1", "\"quoted\" 'c'", ".endif .endm .exit", "*/ stray closer", "100% (done) @0"];
+            let t = texts[li % texts.len()];
+            v.push(Edit { group: 0, kind: "trailing-semicolon-comment", line: li, tok: n, op: Op::AppendLine(format!(" ; {}", t)) });
+            v.push(Edit { group: 0, kind: "trailing-slash-comment", line: li, tok: n, op: Op::AppendLine(format!(" // {}", t)) });
+            // a block comment ends at the first closer: its text must not contain one
+            let tb = if t.contains("*/") { "note /* nested opener" } else { t };
+            v.push(Edit { group: 0, kind: "trailing-block-comment", line: li, tok: n, op: Op::AppendLine(format!(" /* {} */", tb)) });
         } else {
             let ci = l.toks.iter().position(|t| t.role == Role::Comment).unwrap();
             // a block comment that is not the last token on the line is left alone
@@ -85,7 +90,7 @@ fn sites(lines: &[Line]) -> Vec<Edit> {
                 }
             }
         }
-        let style = ["; inserted comment line", "// inserted comment line", "/* inserted comment line */", "   ; indented comment line"][li % 4];
+        let style = ["; inserted comment line", "// inserted comment line with /* an opener", "/* inserted comment line */", "   ; indented comment line", "// see src/*.asm", "; .if 0", "// .macro not_a_macro", "/* .endif */"][li % 8];
         v.push(Edit { group: 2, kind: "comment-only-line", line: li, tok: 0, op: Op::InsertLineBefore(style.into()) });
         v.push(Edit { group: 3, kind: "blank-line", line: li, tok: 0, op: Op::InsertLineBefore(if li % 2 == 0 { "".into() } else { " \t ".into() }) });
         // tokens
